@@ -145,6 +145,21 @@ Inductive mres := MYes | MNo | MBad | MFuel.
 Definition mres_eqb (a b : mres) : bool :=
   match a, b with MYes, MYes | MNo, MNo | MBad, MBad | MFuel, MFuel => true | _, _ => false end.
 
+(* "Look for match skipping i+1 bytes.  Cannot skip /."  [k] is the rest of the Pattern loop
+   (continue Pattern with the remaining pattern), [last] says that the chunk is the last one *)
+Fixpoint star_loop (k : string -> mres) (chunk : string) (last : bool) (nm : string) : mres :=
+  match nm with
+  | EmptyString => MNo
+  | String a t =>
+      if Ascii.eqb a slash then MNo else
+      match match_chunk chunk t with
+      | KYes t2 => if last && negb (is_empty t2) then star_loop k chunk last t else k t2
+      | KBad => MBad
+      | KFuel => MFuel
+      | KNo => star_loop k chunk last t
+      end
+  end.
+
 (* the Pattern loop of Match *)
 Fixpoint match_go (fuel : nat) (pattern name : string) : mres :=
   match pattern with
@@ -155,21 +170,7 @@ Fixpoint match_go (fuel : nat) (pattern name : string) : mres :=
       | S f =>
           let '(star, chunk, rest) := scan_chunk pattern in
           if star && is_empty chunk then (if contains_char slash name then MNo else MYes) else
-          (* "Look for match skipping i+1 bytes. Cannot skip /." *)
-          let star_loop :=
-            fix star_loop (nm : string) : mres :=
-              match nm with
-              | EmptyString => MNo
-              | String a t =>
-                  if Ascii.eqb a slash then MNo else
-                  match match_chunk chunk t with
-                  | KYes t2 => if is_empty rest && negb (is_empty t2) then star_loop t else match_go f rest t2
-                  | KBad => MBad
-                  | KFuel => MFuel
-                  | KNo => star_loop t
-                  end
-              end in
-          let after := if star then star_loop name else MNo in
+          let after := if star then star_loop (match_go f rest) chunk (is_empty rest) name else MNo in
           match match_chunk chunk name with
           | KYes t => if is_empty t || negb (is_empty rest) then match_go f rest t else after
           | KBad => MBad
